@@ -178,34 +178,99 @@ def value_like(rng, v):
     return G.valid_value(rng, v)
 
 
-def gen_description(rng, tree, n, exclude_top, kmax=4):
-    """nested dictionary mirroring `tree` with, at k random leaf paths, a list of n values"""
+class _Absent:
+    """set i does not list this path (per-set descriptions): the base value must stay"""
+
+    def __repr__(self):
+        return "<not listed>"
+
+
+ABSENT = _Absent()
+
+
+def gen_description(rng, tree, n, exclude_top, kmax=4, per_set=None):
+    """a sensitivity description for `tree` in the forms the code accepts, and what it means:
+    lists[path] = [value of set 0, ..., value of set n-1], ABSENT where a set does not list the path.
+      * nested form: the tree's shape with a list of n values at k leaf paths (every set lists them);
+      * per-set form (`key: [ {..set 0..}, ..., {..set n-1..} ]`, the already unpacked shape that
+        unpack_parameter_variations hands through): each set names ITS OWN leaf paths below a
+        section - one-at-a-time designs, overlapping and disjoint path sets, sets that list nothing.
+    Both forms are mixed in one description (on different top-level keys)."""
+    if per_set is None:
+        per_set = rng.random() < 0.4
     paths = [p for p, v in G.leaves(tree) if p[0] not in exclude_top]
-    k = rng.randint(1, min(kmax, len(paths)))
-    chosen = rng.sample(paths, k)
     desc, lists = {}, {}
-    for p in chosen:
+    used_top = set()
+    if per_set and n >= 1:
+        sections = sorted({p[0] for p in paths if len(p) >= 2})
+        rng.shuffle(sections)
+        for sec in sections[: rng.choice([1, 1, 2])]:
+            below = [p for p in paths if p[0] == sec]
+            style = rng.choice(["one-at-a-time", "overlap", "random"])
+            per = []
+            for i in range(n):
+                if style == "one-at-a-time":
+                    mine = [below[i % len(below)]] if (i < len(below) or rng.random() < 0.5) else []
+                elif style == "overlap":
+                    mine = rng.sample(below, min(len(below), rng.choice([1, 2, 2, 3])))
+                else:
+                    mine = [q for q in below if rng.random() < 0.4]
+                d = {}
+                for q in mine:
+                    val = value_like(rng, G.get_path(tree, q))
+                    G.set_path(d, q[1:], val)
+                    lists.setdefault(q, [ABSENT] * n)[i] = val
+                per.append(d)
+            desc[sec] = per
+            used_top.add(sec)
+    rest = [p for p in paths if p[0] not in used_top]
+    if rest and (not used_top or rng.random() < 0.7):
+        k = rng.randint(1, min(kmax, len(rest)))
+        for p in rng.sample(rest, k):
+            vals = [value_like(rng, G.get_path(tree, p)) for _ in range(n)]
+            G.set_path(desc, p, vals)
+            lists[p] = vals
+    if not desc:     # nothing chosen (tiny tree): fall back to one listed leaf
+        p = rng.choice(paths)
         vals = [value_like(rng, G.get_path(tree, p)) for _ in range(n)]
         G.set_path(desc, p, vals)
         lists[p] = vals
     return desc, lists
 
 
+def lists_of(params, n):
+    """the meaning of a description (either form), read from the description alone"""
+    lists = {}
+    for p, v in G.leaves(params):
+        if len(p) == 1 and isinstance(v, list) and len(v) == n and v and all(isinstance(x, dict) for x in v):
+            for i, x in enumerate(v):
+                for q, val in G.leaves(x):
+                    lists.setdefault(p + q, [ABSENT] * n)[i] = val
+        else:
+            lists[p] = v
+    return lists
+
+
 def spec_apply(tree, lists, i):
+    """the independent expectation for set i: the base tree with exactly the leaves THIS set lists
+    replaced (nothing of any other set)"""
     exp = copy.deepcopy(tree)
     for p, vals in lists.items():
-        G.set_path(exp, p, copy.deepcopy(vals[i]))
+        if vals[i] is not ABSENT:
+            G.set_path(exp, p, copy.deepcopy(vals[i]))
     return exp
 
 
-def classify_diff(exp, got, lists, prefix=()):
-    d = None
+def classify_diff(exp, got, lists, i=None):
+    """first difference, classified for set i: `varied` on / below / above a path THIS set lists, else `frame`"""
     from harness.props.c18 import first_diff
     d = first_diff(exp, got)
     if d is None:
         return None
     rel = tuple(d)
     for p in lists:
+        if i is not None and lists[p][i] is ABSENT:
+            continue
         if rel[: len(p)] == p or p[: len(rel)] == rel:
             return "varied", rel
     return "frame", rel
@@ -304,7 +369,7 @@ def oracle_sets(ctx, base, level, n, lists_by_target, rv, info, inp, clash=None)
         if level == "virtual_world":
             exp = spec_apply(base["vw"], lists_by_target["vw"], i)
             if T.canon(s["vw"]) != T.canon(exp):
-                kind, where = classify_diff(exp, s["vw"], lists_by_target["vw"])
+                kind, where = classify_diff(exp, s["vw"], lists_by_target["vw"], i)
                 ctx.violate(f"C19:{kind}:virtual_world", f"set {i}: virtual world differs from base-with-listed-values at {list(where)}", inp)
             if T.canon(s["programs"]) != T.canon(base["programs"]):
                 ctx.violate("C19:frame:programs:virtual_world", "programs of a virtual-world set differ from the base", inp)
@@ -338,7 +403,7 @@ def oracle_sets(ctx, base, level, n, lists_by_target, rv, info, inp, clash=None)
                     exp = spec_apply(base["programs"][pn], lists, k)
                     exp["program_name"] = f"{pn}_{k}"
                     if T.canon(progs[f"{pn}_{k}"]) != T.canon(exp):
-                        kind, where = classify_diff(exp, progs[f"{pn}_{k}"], lists)
+                        kind, where = classify_diff(exp, progs[f"{pn}_{k}"], lists, k)
                         ctx.violate(f"C19:{kind}:programs", f"program {pn}_{k} differs from base-with-listed-values at {list(where)}", inp)
         else:
             sens = info["sens"]
@@ -386,15 +451,15 @@ def oracle_sets(ctx, base, level, n, lists_by_target, rv, info, inp, clash=None)
                     continue
                 if T.canon(got) != T.canon(exp):
                     flat = {("methods", f"{mn}_{k}") + p: v for mn, ls in lists_by_target.items() for p, v in ls.items()}
-                    kind, where = classify_diff(exp, got, flat)
+                    kind, where = classify_diff(exp, got, flat, k)
                     ctx.violate(f"C19:{kind}:methods", f"program {sens}_{k} differs from base-with-listed-values at {list(where)}", inp)
 
 
-def gen_case(rng, base, level, n):
+def gen_case(rng, base, level, n, per_set=None):
     """(description in file format, lists_by_target)"""
     baseline = base["sim"]["baseline_program"]
     if level == "virtual_world":
-        desc, lists = gen_description(rng, base["vw"], n, exclude_top=(), kmax=5)
+        desc, lists = gen_description(rng, base["vw"], n, exclude_top=(), kmax=5, per_set=per_set)
         return desc, {"vw": lists}
     if level == "programs":
         cands = [p for p in base["programs"] if p != baseline]
@@ -402,7 +467,7 @@ def gen_case(rng, base, level, n):
         out, lbt = [], {}
         for pn in chosen:
             desc, lists = gen_description(rng, base["programs"][pn], n,
-                                          exclude_top=("program_name", "method_labels", "methods"), kmax=3)
+                                          exclude_top=("program_name", "method_labels", "methods"), kmax=3, per_set=per_set)
             out.append({"Program Name": pn, "Program Sensitivity Parameters": desc})
             lbt[pn] = lists
         return out, lbt
@@ -411,7 +476,7 @@ def gen_case(rng, base, level, n):
     chosen = rng.sample(ms, rng.randint(1, len(ms)))
     out, lbt = [], {}
     for mn in chosen:
-        desc, lists = gen_description(rng, base["programs"][sens]["methods"][mn], n, exclude_top=("method_name",), kmax=4)
+        desc, lists = gen_description(rng, base["programs"][sens]["methods"][mn], n, exclude_top=("method_name",), kmax=4, per_set=per_set)
         out.append({"Method Name": mn, "Method Sensitivity Parameters": desc})
         lbt[mn] = lists
     return out, lbt
@@ -506,7 +571,7 @@ def history(ctx, jobs, base, rng):
     input objects must still be the base afterwards."""
     level = rng.choice(["virtual_world", "programs", "methods"])
     n = rng.choice([1, 2, 3])
-    desc_a, lbt_a = gen_case(rng, base, level, n)
+    desc_a, lbt_a = gen_case(rng, base, level, n, per_set=False)
     # B: the same described paths with other values (colliding keys, different content)
     desc_b, lbt_b = copy.deepcopy(desc_a), {}
     for tgt, lists in lbt_a.items():
@@ -769,12 +834,12 @@ def replay(ctx, data):
     # rebuild the per-target lists from the description
     lbt = {}
     if level == "virtual_world":
-        lbt["vw"] = {p: v for p, v in G.leaves(desc)}
+        lbt["vw"] = lists_of(desc, n)
     else:
         nk = "Program Name" if level == "programs" else "Method Name"
         pk = "Program Sensitivity Parameters" if level == "programs" else "Method Sensitivity Parameters"
         for d in desc:
-            lbt[d[nk]] = {p: v for p, v in G.leaves(d[pk])}
+            lbt[d[nk]] = lists_of(d[pk], n)
     tag = inp.get("tag") or ""
     oracle_sets(ctx, base, level, n, lbt, rv, info, inp, clash=tag.split(":", 1)[1] if tag.startswith("clash:") else None)
     if not (info["base_dicts_unchanged"] and info["base_holder_unchanged"]):
